@@ -21,6 +21,7 @@
 #include <fcppt/strong_typedef_comparison.hpp>
 #include <fcppt/unique_ptr.hpp>
 #include <fcppt/type_iso/decorate.hpp>
+#include <fcppt/type_iso/enum.hpp>
 #include <fcppt/type_iso/strong_typedef.hpp>
 #include <fcppt/type_iso/undecorate.hpp>
 
@@ -32,6 +33,10 @@ namespace
 {
 FCPPT_MAKE_STRONG_TYPEDEF(int, st_int);
 FCPPT_MAKE_STRONG_TYPEDEF(unsigned, st_uint);
+// the other type_iso specialisation (enums) and the nested ones
+enum class color : int { red, green, blue };
+FCPPT_MAKE_STRONG_TYPEDEF(color, st_color);
+FCPPT_MAKE_STRONG_TYPEDEF(st_int, st_st_int);
 
 std::string num(int const v) { return std::to_string(v); }
 // unsigned values as four base-256 limbs, least significant first (TLC integers are 32-bit)
@@ -167,6 +172,20 @@ void wrappers()
       wrap_record("type_iso::decorate", v, s.get(), -1, 0, 0);
       wrap_record("type_iso::undecorate", v, fcppt::type_iso::undecorate(st_int(v)), -1, 0, 0);
       wrap_record("type_iso::roundtrip", v, fcppt::type_iso::undecorate(fcppt::type_iso::decorate<st_int>(v)), -1, 0, 0);
+      if (v >= 0 && v <= 2)
+      {
+        color const c(fcppt::type_iso::decorate<color>(v));
+        wrap_record("type_iso::decorate<enum>", v, static_cast<int>(c), -1, 0, 0);
+        wrap_record("type_iso::undecorate<enum>", v, fcppt::type_iso::undecorate(static_cast<color>(v)), -1, 0, 0);
+        st_color const sc(fcppt::type_iso::decorate<st_color>(v));
+        wrap_record("type_iso::decorate<strong_typedef<enum>>", v, static_cast<int>(sc.get()), -1, 0, 0);
+        wrap_record("type_iso::undecorate<strong_typedef<enum>>", v, fcppt::type_iso::undecorate(st_color(static_cast<color>(v))), -1, 0, 0);
+      }
+      {
+        st_st_int const n(fcppt::type_iso::decorate<st_st_int>(v));
+        wrap_record("type_iso::decorate<strong_typedef<strong_typedef>>", v, n.get().get(), -1, 0, 0);
+        wrap_record("type_iso::undecorate<strong_typedef<strong_typedef>>", v, fcppt::type_iso::undecorate(st_st_int(st_int(v))), -1, 0, 0);
+      }
       st_int t(v);
       int const out = t.get();
       t.get() = w;
